@@ -114,6 +114,22 @@ def run(case, ctx):
                         f"{name}: got {got!r}\n expected {exp!r}\n path={pterm}")
     if len(set(results)) > 1:
         ctx.violate(f"C03/entry-disagree/{sig}", f"entry points disagree: {[r[0] for r in results]}; path={pterm}")
+    # history: the same path object resolves other documents and then this one again
+    for other in (PC.ZOO_DOC, PC.ZOO_LIST):
+        try:
+            eo = M.expected_get(pterm, other)
+        except M.Undefined:
+            continue
+        ok, go = call(p.get_data, other)
+        if not ok:
+            ctx.violate(f"C03/{go.key()}/{sig}/history", f"reused path raised {go!r} on another document; path={pterm}")
+        elif canon(go) != canon(eo):
+            ctx.violate(f"C03/history/{sig}", f"reused path object on another document: got {go!r}, expected {eo!r}; path={pterm}")
+    ok, again = call(p.get_data, doc)
+    ctx.count("entry:reuse-after-other-documents")
+    if not ok or canon(again) != cexp:
+        ctx.violate(f"C03/history/{sig}", f"the same path object resolves the same document differently after being used on others: "
+                    f"{again!r} vs {exp!r}; path={pterm}")
     for name, detail in mon.CONTRACTS.take():
         ctx.violate(f"C03/contract:{name}", detail)
     if info:
